@@ -48,16 +48,29 @@ func genC04(t *rapid.T, all bool) c04Case {
 		if r.Stop%c.Seg == 0 && r.Stop > r.Start+1 {
 			r.Stop--
 		}
-		switch rapid.IntRange(0, 2).Draw(t, "biasfinal") {
+		switch rapid.IntRange(0, 3).Draw(t, "biasfinal") {
 		case 0:
 			r.Final = c.Head // everything final: the whole range is back-filled
-		case 1:
-			r.Final = r.Start + (r.Stop-r.Start)/2 // hand-off inside the range
+		case 1, 2:
+			// hand-off strictly inside the range: a boundary b with start < b < stop, final block in [b, stop)
+			b := (r.Start/c.Seg + 1 + rapid.Uint64Range(0, 1).Draw(t, "biasboundary")) * c.Seg
+			if b+1 >= c.Head {
+				b = (r.Start/c.Seg + 1) * c.Seg
+			}
+			r.Stop = b + 1 + rapid.Uint64Range(0, c.Seg+1).Draw(t, "biasafter")
+			if r.Stop > c.Head {
+				r.Stop = c.Head
+			}
+			r.Final = b + rapid.Uint64Range(0, c.Seg-1).Draw(t, "biasfinaloff")
+			if r.Final >= r.Stop {
+				r.Final = r.Stop - 1
+			}
+			r.Prod = true
 		default:
 			r.Final = 0
 		}
 		b := c.Prog.Beh[r.Output]
-		if b.Sparse == 0 {
+		if b.Sparse == 0 && rapid.Bool().Draw(t, "makesparse") {
 			b.Sparse = rapid.SampledFrom([]uint64{2, 3}).Draw(t, "biassparse")
 			c.Prog.Beh[r.Output] = b
 		}
